@@ -81,10 +81,13 @@ def cases(tier, seed):
             for hdr in (True, False):
                 for comment in (True, False):
                     yield {"k": "fields", "cop": cop, "lic": lic, "hdr": hdr, "comment": comment}
-    for f in ("write-fails", "toml-is-directory", "toml-is-dangling-symlink", "unlink-fails", "no-dep5", "toml-exists"):
+    for f in ("write-fails", "toml-is-directory", "toml-is-dangling-symlink", "toml-is-symlink-to-file", "unlink-fails", "no-dep5", "toml-exists"):
         yield {"k": "fault", "fault": f}
     for holder in ("ascii", "latin", "cjk"):
         yield {"k": "locale", "holder": holder}
+    for shape in UNCONVERTIBLE:
+        for matches in (False, True):
+            yield {"k": "unconvertible", "shape": shape, "matches": matches}
 
 
 def dep5_text(paragraphs, header=True):
@@ -289,6 +292,9 @@ def ev_fault(c) -> R:
         rec["REUSE.toml/inner"] = "x\n"
     elif f == "toml-is-dangling-symlink":
         rec["REUSE.toml"] = {"symlink": "missing-dir/REUSE.toml"}
+    elif f == "toml-is-symlink-to-file":
+        rec["shared/REUSE.toml"] = "version = 1\n# shared with other projects\n"
+        rec["REUSE.toml"] = {"symlink": "shared/REUSE.toml"}
     elif f == "toml-exists":
         rec["REUSE.toml"] = "version = 1\n"
     materialise(root, rec)
@@ -319,6 +325,13 @@ def ev_fault(c) -> R:
             r.violation("no-dep5-not-refused", f"{label}: {out.brief()}")
         if after != before:
             r.violation("no-dep5-touched-tree", f"{label}: tree changed")
+    elif f in ("toml-is-symlink-to-file", "toml-is-dangling-symlink"):
+        # symbolic links are never followed: nothing may be written through REUSE.toml, and dep5 stays
+        if after != before or os.path.lexists(root / "missing-dir"):
+            changed = sorted(k for k in set(after) | set(before) if after.get(k) != before.get(k))
+            r.violation(f"wrote-through-symlink|{f}", f"{label}: exit {out.exit_code}; changed {changed}")
+        if out.exit_code == 0:
+            r.violation(f"symlink-accepted|{f}", f"{label}: exit 0")
     else:
         complete = toml is not None and b"[[annotations]]" in toml and b"2001 Jane" in toml
         if not has_dep5 and not complete:
@@ -327,6 +340,41 @@ def ev_fault(c) -> R:
             r.violation(f"success-but-incomplete|{f}", f"{label}: exit 0 but dep5 present={has_dep5}, REUSE.toml complete={complete}")
     r.outcome = f"fault-{f}-exit{out.exit_code}"
     r.tags.append("fault")
+    return r
+
+
+# Licence fields that dep5 tolerates (the synopsis is only parsed when a file is looked up) but that have no REUSE.toml counterpart
+UNCONVERTIBLE = {"debian-comma-syntax": "GPL-2.0-or-later or MIT, and BSD-3-Clause", "slash-notation": "MIT/X11", "dangling-operator": "MIT OR",
+                 "empty-synopsis": "", "empty-synopsis-with-text": "\n The licence text follows here\n .\n more"}
+
+
+def ev_unconvertible(c) -> R:
+    """The conversion either yields a REUSE.toml under which every command works as before, or refuses and leaves dep5 in place."""
+    r = R()
+    root = fresh_dir("c17")
+    rec = dict(PATHS)
+    lic = UNCONVERTIBLE[c["shape"]]
+    odd_files = ["src/*"] if c["matches"] else ["no/such/dir/*"]
+    rec[".reuse/dep5"] = dep5_text([(["*"], ["2001 Jane"], "MIT", False), (odd_files, ["2002 Odd"], lic, False)])
+    materialise(root, rec)
+    tree0 = read_tree(root)
+    before = run_cli(["--root", str(root), "--no-multiprocessing", "--suppress-deprecation", "lint", "--json"])
+    out = run_cli(["--root", str(root), "convert-dep5"])
+    tree1 = read_tree(root)
+    label = f"dep5 with a paragraph {odd_files} whose License field is {lic!r}"
+    if out.exc:
+        r.violation(f"unconvertible|crash|{c['shape']}", f"{label}: convert-dep5 raised {out.exc_repr}")
+    elif out.exit_code != 0:
+        if tree1 != tree0:
+            r.violation(f"unconvertible|refused-but-changed|{c['shape']}", f"{label}: exit {out.exit_code} but the tree changed: {sorted(k for k in set(tree0) | set(tree1) if tree0.get(k) != tree1.get(k))}")
+    else:
+        after = run_cli(["--root", str(root), "--no-multiprocessing", "lint", "--json"])
+        if after.exc or after.exit_code not in (0, 1) or (before.exit_code in (0, 1) and after.exit_code != before.exit_code):
+            r.violation(f"unconvertible|project-broken-after-conversion|{c['shape']}|matches={c['matches']}",
+                        f"{label}: lint exit {before.exit_code} before, convert-dep5 exit 0, lint afterwards: {str(after.brief())[:300]}")
+    r.evals = 3
+    r.outcome = f"unconvertible-exit{out.exit_code}"
+    r.tags.append("unconvertible")
     return r
 
 
@@ -368,7 +416,7 @@ def ev_locale(c) -> R:
     return r
 
 
-_EV = {"locale": ev_locale, "pat": ev_pat, "paras": ev_paras, "fields": ev_fields, "fault": ev_fault}
+_EV = {"unconvertible": ev_unconvertible, "locale": ev_locale, "pat": ev_pat, "paras": ev_paras, "fields": ev_fields, "fault": ev_fault}
 
 
 def evaluate(c) -> R:
